@@ -357,7 +357,13 @@ class PyvalColorizer:
             # is not relevant to annotations.
             self._output(str(pyval), self.CONST_TAG, state, link=True)
         elif pyvaltype is int or pyvaltype is float or pyvaltype is complex:
-            self._output(str(pyval), self.NUMBER_TAG, state)
+            try:
+                number = str(pyval)
+            except ValueError:
+                # Integers with more digits than sys.get_int_max_str_digits() (written in hexadecimal, octal or binary,
+                # for which the limit does not apply) cannot be converted to decimal.
+                number = hex(pyval)
+            self._output(number, self.NUMBER_TAG, state)
         elif pyvaltype is str:
             self._colorize_str(pyval, state, '', escape_fcn=_str_escape)
         elif pyvaltype is bytes:
